@@ -397,6 +397,15 @@ example : (seqRun [Stage.filter (fun n : Nat => n % 2 == 0), .count (fun c v => 
 example : (seqRun [Stage.negslice (some (-2)) (some 1) 1] (Pipe.ofFn (fun i => i))).take 60 3
     = ([], Ending.exhausted, 4) := by decide
 
+/-- seeded change C02-B as an instance: `Source(infinite, Split([(Slice(2), Count())], bufsize=4), Slice(1))` —
+the fill/compute branch stops in the first block, its result `(2, {count: 2})` is handed over after 4 pulls
+and the pipeline ends there -/
+example : (seqRun [Stage.split BrSt
+        [{ id := 0, kind := .fillCompute, ops := fcOps "count" id,
+           st := { pre := [.slice (some 2) 1 (Lena.C17.fillInit 0)], count := 0, ctx := [] } }] (some 4) true,
+      .islice 0 (some 1) 1] (Pipe.ofFn (fun (i : Nat) => ({ d := i, ctx := [] } : V)))).take 60 3
+    = ([(({ d := 2, ctx := [("count", 2)] } : V), 4)], Ending.exhausted, 4) := by decide
+
 /-! ## `bufsize=None` over an infinite input -/
 
 /-- **`split_none_never_returns`** — `Split(…, bufsize=None)` materialises its input (documented): over an
